@@ -24,7 +24,7 @@ CONSTANTS Fmts,        \* formats (heads of families) enumerated in this run
 
 VARIABLES fmt, vec, st
 
-QuickClasses == {"typ", "zero", "one", "over", "big", "max", "bad", "keep", "fix", "n:5", "n:6", "n:8", "n:16", "n:3", "n:2", "n:4", "n:65"}
+QuickClasses == {"typ", "zero", "one", "over", "big", "max", "bad", "len", "keep", "fix", "n:5", "n:6", "n:8", "n:16", "n:3", "n:2", "n:4", "n:65"}
 Dom(f) == IF Quick THEN f.dom \cap QuickClasses ELSE f.dom
 Neutral(f) == IF f.k = "seal" THEN "keep" ELSE "typ"
 Fields(m) == {Row(m)[i] : i \in 1..Len(Row(m))}
@@ -34,11 +34,13 @@ ByName(m, n) == CHOOSE f \in Fields(m) : f.n = n
 RECURSIVE ProdSize(_)
 ProdSize(S) == IF S = {} THEN 1 ELSE LET f == CHOOSE x \in S : TRUE IN Cardinality(Dom(f)) * ProdSize(S \ {f})
 
+\* rows with more than ten fields (tvfs, patch index) deviate in at most two fields at a time
+WFor(m) == IF Len(Row(m)) > 10 /\ W > 2 THEN 2 ELSE W
 \* sparse family: choose the set of fields that deviate, then their classes
 Sparse(m) ==
   UNION { { [n \in FieldNames(m) |-> IF n \in S THEN a[n] ELSE Neutral(ByName(m, n))] :
               a \in {b \in [S -> UNION {Dom(f) : f \in Fields(m)}] : \A n \in S : b[n] \in Dom(ByName(m, n)) \ {Neutral(ByName(m, n))}} }
-          : S \in {T \in SUBSET FieldNames(m) : Cardinality(T) <= W} }
+          : S \in {T \in SUBSET FieldNames(m) : Cardinality(T) <= WFor(m)} }
 \* full product over the count fields (seal free where there is one)
 CNames(m) == {f.n : f \in CountFields(m)} \cup {f.n : f \in {g \in Fields(m) : g.k = "seal"}}
 Full(m) ==
